@@ -2,6 +2,7 @@
 mod allocprobe;
 mod common;
 mod domains;
+mod opspace;
 mod progspace;
 mod props;
 mod refserde;
@@ -17,6 +18,10 @@ static GLOBAL: allocprobe::Counting = allocprobe::Counting;
 use std::time::Instant;
 
 fn main() {
+    let args: Vec<String> = std::env::args().collect();
+    if args.len() >= 4 && args[1] == "C25DEEP" {
+        std::process::exit(props::c25::deep_child(&args[2], args[3].parse().unwrap_or(1000)));
+    }
     // deep trees (recursive drop / reference interpreter recursion) need a large stack
     let h = std::thread::Builder::new().stack_size(4 << 30).spawn(real_main).expect("spawn main");
     h.join().expect("main thread panicked");
